@@ -131,6 +131,11 @@ def handle (op : String) (args : List Sexp) : Option String :=
       match Builtins.model? (String.ofList name) with
       | some b => pure (showRes (b args))
       | none => pure "(o unmodelled-builtin)"
+  | "setters", (i :: vs) => do
+      -- `setters <init> <v>…`: value of a reference after the setter calls `v…` (C10)
+      let init ← Value.ofSexp i
+      let calls ← vs.mapM Value.ofSexp
+      pure (showVal (applySetters init calls))
   | "arith", [.atom o, a, b] => do
       let aop ← arithOf o
       pure (showRes (evalArith 64 aop (← Value.ofSexp a) (← Value.ofSexp b)))
